@@ -512,9 +512,9 @@ func (g gen) genericRequest(path string) string {
 func c28Gen(r *Rng, tier string, emit func(string)) {
 	routes := loadRoutes()
 	g := gen{r}
-	cases, perCase := 14, 450
+	cases, perCase := 40, 450
 	if tier == "thorough" {
-		cases, perCase = 120, 700
+		cases, perCase = 300, 800
 	}
 	var paths []string
 	for _, rt := range routes {
@@ -535,7 +535,7 @@ func c28Gen(r *Rng, tier string, emit func(string)) {
 				checks := f.checks
 				if u == "1" && (k == "unsigned") {
 					checks = "ok"
-				} else if u == "1" && checks == "ok" {
+				} else if u == "1" && (checks == "ok") {
 					checks = "hard" // a signed transaction verified as "unsigned" violates a hard constraint
 				}
 				emit("verify k=" + k + " u=" + u + " ins=" + ins + " hist=" + f.hist + " prev=" + f.prev + " head=" + strconv.FormatUint(w.now, 10) + " checks=" + checks)
